@@ -4,6 +4,13 @@
  * case:  evsys=<epoll|poll|select> timeout=<ms> tries=<n> flags=<stayopen,...> udpmaxq=<n> |step;step;...
  * steps: qs:<tok>:<name>:<ms> like q, but the completion callback (which runs on the event thread) takes
  *                           <ms> milliseconds: other deadlines may expire while it runs
+ *        qc:<tok>:<name>:<ftok>:<fname>   like q, but the completion callback calls ares_cancel() and then
+ *                           issues a follow-up query <ftok> for <fname> (inside the callback, i.e. in the
+ *                           same hold of the channel lock: the queue is empty for an instant and non-empty
+ *                           again before any waiter can look)
+ *        bgwait:<ms>        a second thread calls ares_queue_wait_empty(ms); when it returns the number of
+ *                           requests not yet completed is recorded (" bgwait=<rc>:<pending>").  Only meaningful
+ *                           when no q step follows it (the generator guarantees that)
  *        q:<tok>:<name>     ares_query_dnsrec(name, IN, A); names starting with "ans" are answered
  *                           (NOERROR, one A record), names starting with "sil" are ignored by the server,
  *                           names starting with "srvfail" get SERVFAIL
@@ -102,12 +109,39 @@ typedef struct {
   long t_start;
   long t_done;
   long slow_ms;
+  int  follow_tok;          /* >= 0: cancel + follow-up query from the callback */
+  char follow_name[104];
 } tok_t;
 
 static tok_t           toks[MAXTOK];
 static pthread_mutex_t tok_mu = PTHREAD_MUTEX_INITIALIZER;
 static long            case_k;
 static long            case_t0;
+
+static ares_channel_t *g_chan;
+static void query_cb(void *arg, ares_status_t status, size_t timeouts, const ares_dns_record_t *rec);
+static void issue(int tk, const char *name)
+{
+  pthread_mutex_lock(&tok_mu);
+  toks[tk].used    = 1;
+  toks[tk].t_start = now_ms();
+  pthread_mutex_unlock(&tok_mu);
+  ares_query_dnsrec(g_chan, name, ARES_CLASS_IN, ARES_REC_TYPE_A, query_cb, &toks[tk], NULL);
+}
+
+static int    bg_rc = -1, bg_pending = -1, bg_started = 0;
+static long   bg_ms;
+static void *bgwait_main(void *arg)
+{
+  int i, pending = 0;
+  (void)arg;
+  bg_rc = (int)ares_queue_wait_empty(g_chan, (int)bg_ms);
+  pthread_mutex_lock(&tok_mu);
+  for (i = 0; i < MAXTOK; i++) if (toks[i].used && !toks[i].done) pending++;
+  pthread_mutex_unlock(&tok_mu);
+  bg_pending = pending;
+  return NULL;
+}
 
 static void query_cb(void *arg, ares_status_t status, size_t timeouts, const ares_dns_record_t *rec)
 {
@@ -123,6 +157,12 @@ static void query_cb(void *arg, ares_status_t status, size_t timeouts, const are
   }
   pthread_mutex_unlock(&tok_mu);
   if (t->slow_ms > 0) usleep((useconds_t)t->slow_ms * 1000);
+  if (t->follow_tok >= 0 && status != ARES_EDESTRUCTION) {
+    int ft = t->follow_tok;
+    t->follow_tok = -1;
+    ares_cancel(g_chan);
+    issue(ft, t->follow_name);
+  }
 }
 
 #ifdef CARES_VERIF
@@ -148,6 +188,7 @@ static long budget_ms(long timeout, long tries)
   return total;
 }
 
+static pthread_t bg_thread;
 static void run_case(long k, char *line)
 {
   char            *bar = strchr(line, '|');
@@ -167,6 +208,8 @@ static void run_case(long k, char *line)
   if (!bar) { printf("%ld R BADCASE\n", k); return; }
   *bar = 0;
   memset(toks, 0, sizeof(toks));
+  for (i = 0; i < MAXTOK; i++) toks[i].follow_tok = -1;
+  bg_rc = -1; bg_pending = -1; bg_started = 0;
   for (tokp = strtok_r(line, " ", &save); tokp; tokp = strtok_r(NULL, " ", &save)) {
     if (!strncmp(tokp, "evsys=", 6)) {
       if (!strcmp(tokp + 6, "epoll")) evsys = ARES_EVSYS_EPOLL;
@@ -200,6 +243,7 @@ static void run_case(long k, char *line)
   }
   snprintf(csv, sizeof(csv), "127.0.0.1:%u", (unsigned)srv_port);
   ares_set_servers_ports_csv(channel, csv);
+  g_chan = channel;
 #ifdef CARES_VERIF
   trace_on = 1;
 #endif
@@ -209,7 +253,22 @@ static void run_case(long k, char *line)
     char name[128];
     long ms;
     long slow = 0;
-    if ((sscanf(tokp, "qs:%d:%100[^:]:%ld", &tk, name, &slow) == 3 || (slow = 0, sscanf(tokp, "q:%d:%100s", &tk, name) == 2)) && tk >= 0 && tk < MAXTOK) {
+    int  ftk;
+    char fname[104];
+    pthread_t bgthr;
+    if (sscanf(tokp, "qc:%d:%100[^:]:%d:%100s", &tk, name, &ftk, fname) == 4 && tk >= 0 && tk < MAXTOK && ftk >= 0 && ftk < MAXTOK) {
+      toks[tk].follow_tok = ftk;
+      snprintf(toks[tk].follow_name, sizeof(toks[tk].follow_name), "%s", fname);
+#ifdef CARES_VERIF
+      trace_cb("query", tk, 0);
+#endif
+      issue(tk, name);
+    } else if (sscanf(tokp, "bgwait:%ld", &ms) == 1 && !bg_started) {
+      bg_ms = ms > 20000 ? 20000 : ms;
+      bg_started = 1;
+      pthread_create(&bgthr, NULL, bgwait_main, NULL);
+      bg_thread = bgthr;
+    } else if ((sscanf(tokp, "qs:%d:%100[^:]:%ld", &tk, name, &slow) == 3 || (slow = 0, sscanf(tokp, "q:%d:%100s", &tk, name) == 2)) && tk >= 0 && tk < MAXTOK) {
       if (slow > 1000) slow = 1000;
       pthread_mutex_lock(&tok_mu);
       toks[tk].used    = 1;
@@ -262,6 +321,10 @@ static void run_case(long k, char *line)
 #ifdef CARES_VERIF
     trace_on = 0;
 #endif
+    if (bg_started) {
+      pthread_join(bg_thread, NULL);
+      snprintf(waitres + strlen(waitres), sizeof(waitres) - strlen(waitres), " bgwait=%d:%d", bg_rc, bg_pending);
+    }
     ares_destroy(channel);
 #ifdef CARES_VERIF
     pthread_mutex_lock(&out_mu);
